@@ -6,6 +6,7 @@ Require Import Verif.Codec.JsonClean Verif.Codec.JsonCleanProps Verif.Codec.Sour
                Verif.Codec.PostProcess Verif.Codec.PostProcessProps Verif.Codec.AssocProps Verif.Codec.CollectorProps
                Verif.Codec.JsonTokens Verif.Codec.JsonTokensProps Verif.Codec.FileWrite
                Verif.Codec.StripCtx Verif.Codec.StripCtxProps Verif.Codec.StripSource Verif.Codec.JsonStrings
+               Verif.Codec.EncState Verif.Codec.EncStateProps Verif.Codec.EncSource Verif.Gen.PbState
                Verif.Gen.JsonRegex Verif.Gen.PbDispatch Verif.Gen.StripCtx.
 
 (* ---- the JSON clean-up removes the salt and nothing else: every document of protojson's line shape (any keys and
@@ -201,3 +202,75 @@ Theorem C09_clean_keeps_strings : forall ls, wf_doc ls = true ->
               forallb (fun l => negb (salted l)) ls' = true.
 Proof. exact clean_keeps_strings. Qed.
 Print Assumptions C09_clean_keeps_strings.
+
+(* ---- no state between encoder calls (pkg/pbutil; variables, their uses, the provenance of the bytes handed to Write and
+   the writer entry points regenerated into Gen/PbState.v).  Model: Codec/EncState.v - memory as arrays, a Write that blocks
+   while its reader copies out of the slice it was given, encoder calls and partial reads in any order. *)
+
+(* for EVERY rule under which each encoder hands Write a slice of its own: whatever the state (earlier calls, Writes still
+   in progress) and the writer, the call hands over exactly marshal e m, leaves the package variables as they are and
+   touches no array that existed before *)
+Theorem C09_encode_is_a_function_of_the_model : forall (marshal:enc -> nat -> octets) r,
+  fresh_rule r = true -> forall st1 st2 w1 w2 e m st1' st2',
+  step marshal r st1 (EEnc w1 e m) = Some st1' -> step marshal r st2 (EEnc w2 e m) = Some st2' ->
+  handed st1' = marshal e m /\ handed st2' = marshal e m /\ vars st1' = vars st1 /\ heap_kept st1 st1'.
+Proof. exact encode_is_a_function_of_the_model. Qed.
+Print Assumptions C09_encode_is_a_function_of_the_model.
+
+(* hence, under ANY schedule of encoder calls and partial reads (encodes that overlap in one process), every reader
+   receives a prefix of its own model's encoding, and all of it once it has read to the end *)
+Theorem C09_overlapping_encodes_deliver : forall (marshal:enc -> nat -> octets) r evs st,
+  fresh_rule r = true -> run marshal r init evs = Some st ->
+  forall x, In x (writers st) ->
+    w_got x = firstn (w_pos x) (marshal (w_enc x) (w_model x)) /\
+    (w_pos x = sl_len (w_slice x) -> w_got x = marshal (w_enc x) (w_model x)).
+Proof. exact overlapping_encodes_deliver. Qed.
+Print Assumptions C09_overlapping_encodes_deliver.
+
+(* the CURRENT source is such a rule and keeps no state: no function of pkg/pbutil writes, slices or takes the address of a
+   package-level variable (the regexp is only the receiver of ReplaceAll, the error value is only read / compared); each
+   encoder writes the result of <MarshalOptions>.Marshal (JSON: passed through Regexp.ReplaceAll) - both freshly
+   allocated; bytes reach a writer in those three functions only, and every writer entry point ends in one of them *)
+Theorem C09_encoder_state_obligations :
+  stateless pb_vars pb_var_uses = true /\ fresh_rule src_enc_rule = true /\
+  map (fun s => (ws_fn s, ws_callee s)) pb_write_sites = map (fun e => (enc_fn e, "io.Writer.Write"%string)) all_encs /\
+  map fst pb_entry_points =
+    ["FJSONPB"; "FJSONPBWithOpt"; "FTextPB"; "FTextPBWithOpt"; "GeneratePBBinaryMessage"; "GeneratePBBinaryMessageFile";
+     "JSONPB"; "JSONPBWithOpt"; "OutputSplitApplications"; "TextPB"; "TextPBWithOpt"]%string /\
+  forallb (fun p => reaches 4 pb_entry_points (fst p)) pb_entry_points = true.
+Proof.
+  exact (conj no_package_state (conj encoders_write_fresh_bytes (conj write_sites_are_the_encoders
+        (conj (f_equal (map fst) entry_points_as_expected) entry_points_end_in_encoders)))).
+Qed.
+Print Assumptions C09_encoder_state_obligations.
+
+Theorem C09_source_encode_is_a_function_of_the_model : forall (marshal:enc -> nat -> octets) st1 st2 w1 w2 e m st1' st2',
+  step marshal src_enc_rule st1 (EEnc w1 e m) = Some st1' -> step marshal src_enc_rule st2 (EEnc w2 e m) = Some st2' ->
+  handed st1' = marshal e m /\ handed st2' = marshal e m /\ vars st1' = vars st1 /\ heap_kept st1 st1'.
+Proof. exact source_encode_is_a_function_of_the_model. Qed.
+Print Assumptions C09_source_encode_is_a_function_of_the_model.
+
+Theorem C09_source_overlapping_encodes_deliver : forall (marshal:enc -> nat -> octets) evs, exists st,
+  run marshal src_enc_rule init evs = Some st /\
+  forall x, In x (writers st) ->
+    w_got x = firstn (w_pos x) (marshal (w_enc x) (w_model x)) /\
+    (w_pos x = sl_len (w_slice x) -> w_got x = marshal (w_enc x) (w_model x)).
+Proof. exact source_overlapping_encodes_deliver. Qed.
+Print Assumptions C09_source_overlapping_encodes_deliver.
+
+(* REFUTED for an encoder that marshals into a package-level buffer kept between calls: read one byte of A, encode B,
+   read the rest of A - A's reader has read everything and holds other bytes (why the obligations matter) ... *)
+Theorem C09_scratch_buffer_refuted : exists marshal evs st x,
+  run marshal scratch_rule init evs = Some st /\ In x (writers st) /\
+  w_pos x = sl_len (w_slice x) /\ w_got x <> marshal (w_enc x) (w_model x).
+Proof. exact scratch_buffer_refuted. Qed.
+Print Assumptions C09_scratch_buffer_refuted.
+
+(* ... while schedules WITHOUT overlap (an encoder is called only when no Write is pending) deliver under every rule *)
+Theorem C09_scratch_sequential_partial : forall (marshal:enc -> nat -> octets) r evs st,
+  sequential marshal r init evs = true -> run marshal r init evs = Some st ->
+  forall x, In x (writers st) ->
+    w_got x = firstn (w_pos x) (marshal (w_enc x) (w_model x)) /\
+    (w_pos x = sl_len (w_slice x) -> w_got x = marshal (w_enc x) (w_model x)).
+Proof. exact (fun marshal r evs st => scratch_sequential_partial marshal r evs init st (inv_seq_init marshal)). Qed.
+Print Assumptions C09_scratch_sequential_partial.
